@@ -32,11 +32,11 @@ S(v1, v2, f, b, l) == [attrs |-> [x \in Attr |-> IF x = A1 THEN v1 ELSE IF x = A
                        fg |-> f, bg |-> b, link |-> l]
 SeedSeq == << S("T", "U", Unset, Unset, NoLink),
               S("U", "T", Unset, Unset, NoLink),
-              S("T", "T", Unset, Unset, NoLink),
               S("U", "U", CRed, Unset, NoLink),
               S("T", "U", CRed, Unset, NoLink),
               S("T", "U", Unset, Unset, 1),
               Null,
+              S("T", "T", Unset, Unset, NoLink),
               S("F", "U", Unset, CHex, 2),
               S("U", "F", CHex, CRed, NoLink),
               S("U", "U", Unset, Unset, 2) >>
